@@ -184,6 +184,9 @@ func planAll(mixes int, rnd *rand.Rand, h2 bool) []respPlan {
 		plans = append(plans, respPlan{gun: "http", posts: "none", letters: repeat(l, shots)})
 		plans = append(plans, respPlan{gun: "http/scenario", posts: "all", letters: repeat(l, shots)})
 	}
+	for _, l := range httpAll { // the connect gun: the same letters through an established tunnel
+		plans = append(plans, respPlan{gun: "connect", posts: "none", letters: repeat(l, shots)})
+	}
 	for _, p := range []string{"none", "jsonpath", "header_substr", "xpath", "assert"} {
 		for _, l := range []string{"s200", "s204", "s500", "empty", "notjson", "jsonarr", "nothtml", "shorthdr", "nohdr", "trunc", "closebefore", "big"} {
 			if l == "big" && p != "jsonpath" && p != "xpath" {
@@ -237,6 +240,9 @@ func planAll(mixes int, rnd *rand.Rand, h2 bool) []respPlan {
 	}
 	for m := 0; m < mixes; m++ {
 		plans = append(plans, respPlan{gun: "http", posts: "none", letters: pick(mixHTTP), mix: true})
+		if m%3 == 0 {
+			plans = append(plans, respPlan{gun: "connect", posts: "none", letters: pick(mixHTTP), mix: true})
+		}
 		plans = append(plans, respPlan{gun: "http/scenario", posts: allPosts[rnd.Intn(len(allPosts))], letters: pick(mixHTTP), mix: true})
 		if m%2 == 0 {
 			plans = append(plans, respPlan{gun: "grpc", posts: "none", letters: pick(mixGrpc), mix: true})
@@ -321,7 +327,7 @@ func runPlan(idx int, p respPlan, t *respTargets, root string) respRun {
 	seenBefore := int64(0)
 	seen := func() int64 { return 0 }
 	switch p.gun {
-	case "http", "http/scenario", "http2", "http2/scenario":
+	case "http", "http/scenario", "http2", "http2/scenario", "connect":
 		target = t.raw.Addr()
 		seen = t.raw.Requests
 		if p.timeout {
